@@ -15,7 +15,7 @@ Inductive event :=
     (* API call on node n: (term, vote, role) before and after; gfrom = sender of a
        non-rejecting MsgRequestVoteResponse of the node's current term that the call consumed *)
 | EReady (n : N)                   (* ready() handed out a hard state *)
-| EFsync (n : N)                   (* the oldest handed-out hard state became durable *)
+| EFsync (n t v : N)               (* the hard state (t, v, _) of a Ready became durable *)
 | ESend (kind from to t : N)       (* released: 1 vote request, 2 vote grant, 3 leader traffic *)
 | ECrash (n : N)
 | ERestart (n t v : N).            (* (term, vote) loaded from stable storage *)
@@ -30,10 +30,26 @@ Definition node_matches (s : pst) (n t v r : N) : bool :=
   let p := nodes s n in
   (p_term p =? t) && (p_vote p =? v) && prole_eqb (p_role p) (prole_of r).
 
-Definition synth (e : event) : list label :=
+(* The implementation hands out only the LATEST (term, vote) per Ready; a message
+   created under an intermediate (term, vote) that the next Ready skips is
+   released once the later hard state is durable (it supersedes the promise).
+   The acceptor therefore takes a P image at every change of (term, vote) and, when
+   a hard state becomes durable, fsyncs every older image with it, in order, in one
+   atomic event: the intermediate durable values are never observable (no crash
+   can fall inside an event), and at every event boundary P's durable image is the
+   implementation's. *)
+Fixpoint images_upto (imgs : list (N * N)) (t v : N) : option nat :=
+  match imgs with
+  | [] => None
+  | (t1, v1) :: rest =>
+      if (t1 =? t) && (v1 =? v) then Some 1%nat
+      else match images_upto rest t v with Some k => Some (S k) | None => None end
+  end.
+
+Definition synth (s : pst) (e : event) : list label :=
   match e with
   | ECall n t v r t' v' r' gfrom =>
-      if t <? t' then
+      (if t <? t' then
         if (v' =? n) && (t' =? t + 1) then
           LCampaign n :: match prole_of r' with
                          | PL => [LBecomeLeader n]
@@ -52,9 +68,14 @@ Definition synth (e : event) : list label :=
             | PC, PL => [LBecomeLeader n]
             | PC, PF | PL, PF => [LStepDown n]
             | _, _ => []
-            end)
+            end))
+      ++ (if (t =? t') && (v =? v') then [] else [LImage n])
   | EReady n => [LImage n]
-  | EFsync n => [LFsync n]
+  | EFsync n t v =>
+      match images_upto (p_imgs (nodes s n)) t v with
+      | Some k => repeat (LFsync n) k
+      | None => [LStepDown 0; LRestart 0]   (* no such image: forces a rejection (node 0 never exists) *)
+      end
   | ESend kind from to t =>
       if kind =? 1 then [LReleaseReq from t]
       else if kind =? 2 then [LReleaseGrant from t]
@@ -78,12 +99,13 @@ Section Accept.
                   | _ => true
                   end in
     if negb pre_ok then inr R_PRE else
-    match prun inc out (synth e) s with
+    match prun inc out (synth s e) s with
     | None => inr R_GUARD
     | Some s' =>
         let post_ok := match e with
                        | ECall n _ _ _ t' v' r' _ => node_matches s' n t' v' r'
                        | ERestart n t v => node_matches s' n t v 0
+                       | EFsync n t v => (p_dterm (nodes s' n) =? t) && (p_dvote (nodes s' n) =? v)
                        | ESend 2 from to t =>
                            match voted s from t with Some c => c =? to | None => false end
                        | _ => true
@@ -114,7 +136,7 @@ Section Accept.
   Proof.
     unfold accept. intros Hr H.
     destruct (negb _); [discriminate|].
-    destruct (prun inc out (synth e) s) as [s1|] eqn:E; [|discriminate].
+    destruct (prun inc out (synth s e) s) as [s1|] eqn:E; [|discriminate].
     destruct (match e with ECall _ _ _ _ _ _ _ _ => _ | _ => _ end); [|discriminate].
     inversion H; subst. eapply prun_reachable; eassumption.
   Qed.
